@@ -1,1 +1,14 @@
 import Reamber.Props.C11
+#print axioms Reamber.Timing.c11_consts_tie
+#print axioms Reamber.Timing.reseat_spec
+#print axioms Reamber.Timing.reseat_total
+#print axioms Reamber.Timing.reseat_seated
+#print axioms Reamber.Timing.reseat_length
+#print axioms Reamber.Timing.reseat_keeps_times
+#print axioms Reamber.Timing.reseat_keeps_bpm
+#print axioms Reamber.Timing.reseat_id_of_seated
+#print axioms Reamber.Timing.reseat_eq_ref
+#print axioms Reamber.Timing.loop_ref
+#print axioms Reamber.Timing.seatFromD_spec
+#print axioms Reamber.Timing.reseat_beat_extend_counterexample
+#print axioms Reamber.Timing.reseat_tiny_gap_counterexample
